@@ -35,7 +35,7 @@ ASSUMPTIONS = [
     'step budget counts Python-level events (PY_START + JUMP); a hang inside a C extension would surface as a wall-clock harness error',
     'files up to ~40 kB (big DAT preambles, LIS files of several hundred physical records)',
 ]
-PROBES = ['same_object_reused', 'healthy_big_dat', 'healthy_lis_gt100_prs', 'healthy_RP66V1', 'healthy_LIS', 'healthy_LISt', 'healthy_LIStr', 'healthy_LAS1.2', 'healthy_LAS2.0', 'healthy_BIT', 'healthy_DAT',
+PROBES = ['same_object_reused', 'healthy_lis_several_MB', 'healthy_lis_padded_tif_blocks', 'path_and_object_compared', 'healthy_big_dat', 'healthy_lis_gt100_prs', 'healthy_RP66V1', 'healthy_LIS', 'healthy_LISt', 'healthy_LIStr', 'healthy_LAS1.2', 'healthy_LAS2.0', 'healthy_BIT', 'healthy_DAT',
           'foreign_detected', 'lis_probe_on_non_lis', 'dat_probe_on_ascii', 'budget_gt_10pct', 'from_path', 'random_bytes', 'damaged_still_identified',
           'damaged_unidentified']
 EXPECTED = {'dlis': 'RP66V1', 'dlis_phys': 'RP66V1', 'bit': 'BIT', 'dat': 'DAT'}
@@ -86,6 +86,12 @@ def generate(seed, tier):
     if fam == 'lis' and rng.chance(0.45):
         gen['small_pr'] = True           # > 100 physical records: the answer must not depend on size
         gen['frames'] = rng.pick([40, 120])
+    if fam == 'lis' and rng.chance(0.15):
+        gen['tif_pad'] = True            # TIF-marked tape image whose blocks are padded to a minimum size or an alignment
+    if fam == 'lis' and rng.chance(0.03):
+        gen.pop('small_pr', None)
+        gen['huge'] = True               # several MB, more than a hundred maximal physical records: the answer must not depend on size
+        gen['frames'] = 6
     if fam == 'dat' and rng.chance(0.3):
         gen['big'] = True                # declarations + header + first row of several kB
     if fam == 'foreign':
@@ -100,6 +106,10 @@ def generate(seed, tier):
     n = len(by)
     fault_sets = [[]]
     text_fields = []
+    if gen.get('huge'):
+        # few identifications of a big file, all of them through a path and through a file object
+        fault_sets += [[['truncate', rng.randrange(n // 2, n)]], [['truncate', n - rng.randrange(1, 3000)]], [['bitflip', rng.randrange(n), rng.randrange(8)]]]
+        return {'world': 'typing', 'gen': gen, 'fault_sets': fault_sets, 'from_path_every': 1, 'reuse_object': False, 'both_routes': True}
     if fam in ('las', 'dat') and n:
         import re
         if fam == 'las':
@@ -199,7 +209,7 @@ def identify(by, budget, via_path=None, shared=None):
         with open(via_path, 'wb') as f:
             f.write(by)
         try:
-            with StepBudget(budget, cpu_s=CPU_QUOTA_S) as sb:
+            with StepBudget(budget, cpu_s=CPU_QUOTA_S + 4e-6 * len(by)) as sb:
                 r = bft.binary_file_type_from_path(via_path)
             return 'ok', r, sb.count, None
         except BudgetExceeded:
@@ -211,7 +221,7 @@ def identify(by, budget, via_path=None, shared=None):
         f.set_content(by)
     else:
         f = SimFile(by, EventClock(), name='x', log=False)
-    sb = StepBudget(budget, cpu_s=CPU_QUOTA_S)
+    sb = StepBudget(budget, cpu_s=CPU_QUOTA_S + 4e-6 * len(by))
     try:
         with sb:
             r = bft.binary_file_type(f)
@@ -256,6 +266,13 @@ def execute(scenario):
             via = os.path.join(scratch, 'f.bin') if (k % scenario.get('from_path_every', 13) == 0) else None
             outcome, detail, steps, post = identify(data, budget, via, shared)
             n_eval += 1
+            if via and scenario.get('both_routes') and outcome == 'ok':
+                o2, d2, _, post = identify(data, budget, None, None)
+                n_eval += 1
+                res.probe('path_and_object_compared')
+                if o2 == 'ok' and d2 != detail:
+                    res.violation('identify-route', f'fault set {k} {fs} on a {fam} file of {len(data)} bytes: through its path the file is identified as {detail!r}, '
+                                  f'through an open file object as {d2!r}', by_path=detail, by_object=d2, family=fam, fault=fs[0][0] if fs else 'healthy')
             res.op('identify_path' if via else 'identify')
             if via:
                 res.probe('from_path')
@@ -308,6 +325,10 @@ def execute(scenario):
                             res.probe('healthy_big_dat')
                         if fam == 'lis' and sum(len(r_['prs']) for r_ in info['layout']['records']) > 100:
                             res.probe('healthy_lis_gt100_prs')
+                        if gen.get('huge'):
+                            res.probe('healthy_lis_several_MB')
+                        if fam == 'lis' and info['model']['phys'].get('tif_pad'):
+                            res.probe('healthy_lis_padded_tif_blocks')
             else:
                 if fired:
                     n_nontrivial += 1
